@@ -11,7 +11,7 @@ import (
 
 // caseT is one input of the correspondence (also the replay format of known findings).
 type caseT struct {
-	Kind string `json:"kind"` // exit | io | envsrc | import | used | bind | env
+	Kind string `json:"kind"` // exit | io | envsrc | import | used | bind | env | opts
 	Cfg  cfgT   `json:"cfg"`
 
 	// exit, io, envsrc, bind
@@ -33,6 +33,10 @@ type caseT struct {
 	// env
 	Entries []string `json:"entries,omitempty"`
 	Ops     []opT    `json:"ops,omitempty"`
+
+	// opts: one value of interp.Options; Observe restricts the comparison to one observation (replays)
+	Opts    *optsT `json:"opts,omitempty"`
+	Observe string `json:"observe,omitempty"`
 }
 
 func (c cfgT) sexp() string {
@@ -128,6 +132,8 @@ func (c caseT) line() string {
 			form = "(named alias)"
 		}
 		return "C13 import " + common.QL(c.Sets) + " " + form + " " + q(full) + " " + q(dir) + " " + q(base) + " " + common.B(c.GoPath && srcTree[normPath(c.Path)])
+	case "opts":
+		return c.optsLine()
 	case "env":
 		parts := []string{"C13 env", c.Cfg.sexp(), common.QL(c.Entries), hostPairsSexp()}
 		for _, o := range c.Ops {
@@ -264,6 +270,8 @@ func (c caseT) script() string {
 		return c.Probe
 	case "env":
 		return envScript(c.Ops)
+	case "opts":
+		return c.optsScript()
 	}
 	return ""
 }
@@ -294,6 +302,8 @@ func (c caseT) job(id int, gopath string) job {
 		j.ImportUsed = true
 	case "env":
 		j.Env = c.Entries
+	case "opts":
+		j.Opts, j.Call, j.GoPath, j.Args, j.Env = c.Opts, "Obs()", gopath, nil, nil
 	}
 	return j
 }
